@@ -391,7 +391,7 @@ def known_index(prop_id):
             continue
         names[ent["id"]] = ent["what"]
         cases = ent.get("cases", [])
-        if "cases_file" in ent:
+        if "cases_file" in ent and os.path.exists(os.path.join(VERIF, ent["cases_file"])):
             with open(os.path.join(VERIF, ent["cases_file"])) as f:
                 cases = cases + [ln.strip() for ln in f if ln.strip()]
         for c in cases:
